@@ -135,7 +135,8 @@ PROPS = {
     },
     'C14': {
         'props': 'Props/C14.v',
-        'suites': [{'name': 'cluster', 'oracles': {'cluster': 'o_cluster'}, 'trivial_tags': ['nodes-1', 'nodes-2'], 'vm_sample': 25}],
+        'suites': [{'name': 'cluster', 'oracles': {'cluster': 'o_cluster'}, 'trivial_tags': ['nodes-1', 'nodes-2'], 'vm_sample': 25},
+                   {'name': 'info', 'oracles': {'info': 'o_info'}, 'trivial_tags': ['empty', 'error-text'], 'vm_sample': 20}],
         'rule': 'cparse: generated CLUSTER NODES texts (1-4 masters x 0-2 replicas; flags myself/master/slave/fail/fail?/handshake/noaddr/empty; link states; truncated column counts; '
                 'slot shapes single, range, two ranges, migration markers, out-of-range, reversed, junk; addresses with/without @cport, missing port, hostnames, +port, IPv6) with a scripted INFO oracle '
                 'and a random subset of already-known addresses, through ClusterNodes.parse. cluster: histories of 2-8 events (usable texts, re-parented replica, changed topology, unusable replies '
